@@ -17,6 +17,7 @@ import (
 	"context"
 	"fmt"
 	"math/big"
+	"strconv"
 	"strings"
 
 	"github.com/attestantio/go-block-relay/services/blockauctioneer"
@@ -33,6 +34,9 @@ import (
 	"go.opentelemetry.io/otel/attribute"
 	"go.opentelemetry.io/otel/trace"
 )
+
+// builderBidsCacheSlots is the number of slots for which cached builder bids are retained.
+const builderBidsCacheSlots = 64
 
 // AuctionBlock obtains the best available use of the block space.
 func (s *Service) AuctionBlock(ctx context.Context,
@@ -124,6 +128,13 @@ func (s *Service) cacheBid(_ context.Context,
 		s.builderBidsCache[key] = make(map[string]*builderspec.VersionedSignedBuilderBid)
 	}
 	s.builderBidsCache[key][subKey] = bid
+	// Bids are only asked for around the time of their slot, so forget those for slots long past.
+	for cachedKey := range s.builderBidsCache {
+		cachedSlot, err := strconv.ParseUint(cachedKey, 10, 64)
+		if err == nil && cachedSlot+builderBidsCacheSlots < uint64(slot) {
+			delete(s.builderBidsCache, cachedKey)
+		}
+	}
 	s.builderBidsCacheMu.Unlock()
 }
 
